@@ -344,16 +344,17 @@ def value_check(pid, tier_, plan, kbits=14, rule='', extra_execs=(), all_known=F
         left = na
         while left > 0:
             execs.append(gen.gen_values(rng, sol, nassign=min(6, left), npts=npt, evaluators=evs, mix=mix,
-                                        oat=(6 if tier_ == 'quick' else 40) if left <= 6 else 0))
+                                        oat=(10 if tier_ == 'quick' else 40) if left <= 6 else 0))
             left -= 6
     execs += list(extra_execs)
     # exact zeros: one assignment per zeroable parameter with only that parameter exactly 0 (all of them for solutions with
-    # <= 16 such parameters and in the thorough tier, a random 8 otherwise), plus one assignment with a random third of them 0
+    # at most 48 such parameters -- every solution but two -- and in the thorough tier, a random 8 otherwise), one assignment
+    # with a random third of them 0, and every PAIR of them for the small solutions
     for sol, evs, na, npt in plan:
         ks = gen.zeroable(sol) if zeros else []
         if not ks:
             continue
-        pick = list(ks) if (len(ks) <= 16 or tier_ == 'thorough') else rng.sample(ks, 8)
+        pick = list(ks) if (len(ks) <= 48 or tier_ == 'thorough') else rng.sample(ks, 8)
         zp = [{k} for k in pick] + [set(k for k in ks if rng.random() < 0.33)]
         # ... and every PAIR of them for the small solutions (a guard on two parameters at once)
         if len(ks) <= (16 if tier_ == 'quick' else 40):
@@ -361,6 +362,13 @@ def value_check(pid, tier_, plan, kbits=14, rule='', extra_execs=(), all_known=F
         for i in range(0, len(zp), 6):
             execs.append(gen.gen_values(rng, sol, nassign=len(zp[i:i + 6]), npts=1, evaluators=evs, zero_plan=zp[i:i + 6]))
             execs[-1].label = 'zeros:%s' % sol
+    # exact fields and gradients at the zeros / extrema of every trigonometric factor
+    for sol, evs, na, npt in plan:
+        if gen.purity_picker(sol) is gen.admissible_param and sol != 'navierstokes_4d_compressible_powerlaw':
+            cheap = [c for c in (evs or map(tuple, CAT[sol]['caps'])) if c[0].startswith('exact_') or c[0].startswith('grad_')]
+            sp = gen.gen_special_points(rng, sol, cheap) if cheap else None
+            if sp is not None:
+                execs.append(sp)
     # the library's own default parameters (the inputs of every test and example of the repository)
     execs += [gen.gen_default_values(rng, sol, npts=max(2, npt), evaluators=evs) for sol, evs, na, npt in plan]
     # thorough: the repository's own programs that use these solutions, traced through the shim, judged by the same oracle
